@@ -1000,3 +1000,105 @@ func ruleR157(c *Ctx) {
 		c.Undecided("parser2.Tokenizer.run#quoted-identifier-runes-as-written", ta.run.Pos(), "case for the quote character not found")
 	}
 }
+
+// ---------------------------------------------------------------------------
+// R15.8 the image of a number or identifier is made of the runes that were accepted
+
+// ruleR158: the readers of numbers and identifiers (read/readSkip) ask the
+// matcher about the rune the tokenizer delivers - for a typographic alias the
+// ASCII character it stands for - and the image of the token has to consist of
+// exactly those runes: every accepted rune is appended to the result, and the
+// result is nothing else (not a slice of the raw input, in which the alias is
+// still the typographic character: 1e–5 would be matched but not parsed).
+func ruleR158(c *Ctx) {
+	ta := c.tokAnchors()
+	root := c.Pkg("")
+	if len(ta.missing) > 0 || root == nil {
+		c.Undecided(strings.Join(ta.missing, ","), token.NoPos, "anchors not found")
+		return
+	}
+	info := ta.info
+	n := 0
+	for _, name := range []string{"readSkip", "readRaw"} {
+		fd := c.FuncDecl(root, "Tokenizer", name)
+		if fd == nil {
+			continue
+		}
+		n++
+		key := "parser2.Tokenizer." + name + "#image-of-accepted-runes"
+		// the validated rune: argument of the call of the function valued parameter
+		var validated types.Object
+		var validParam types.Object
+		if fd.Type.Params != nil {
+			for _, f := range fd.Type.Params.List {
+				if _, ok := info.TypeOf(f.Type).Underlying().(*types.Signature); ok && len(f.Names) == 1 {
+					validParam = info.Defs[f.Names[0]]
+				}
+			}
+		}
+		ast.Inspect(fd.Body, func(x ast.Node) bool {
+			if call, ok := x.(*ast.CallExpr); ok && len(call.Args) == 1 {
+				if id, ok := ast.Unparen(call.Fun).(*ast.Ident); ok && validParam != nil && info.ObjectOf(id) == validParam {
+					if a, ok := ast.Unparen(call.Args[0]).(*ast.Ident); ok {
+						validated = info.ObjectOf(a)
+					}
+				}
+			}
+			return true
+		})
+		if validated == nil {
+			c.Undecided(key, fd.Pos(), "the call of the matcher was not found")
+			continue
+		}
+		// the accumulator: written with the validated rune
+		var acc types.Object
+		ast.Inspect(fd.Body, func(x ast.Node) bool {
+			call, ok := x.(*ast.CallExpr)
+			if !ok || len(call.Args) != 1 {
+				return true
+			}
+			sel, ok := ast.Unparen(call.Fun).(*ast.SelectorExpr)
+			if !ok || sel.Sel.Name != "WriteRune" {
+				return true
+			}
+			if a, ok := ast.Unparen(call.Args[0]).(*ast.Ident); ok && info.ObjectOf(a) == validated {
+				if r := rootIdent(sel.X); r != nil {
+					acc = info.ObjectOf(r)
+				}
+			}
+			return true
+		})
+		// every return hands out the accumulator's text
+		okRet, nRet := true, 0
+		bad := ""
+		inspectNoLit(fd.Body, func(x ast.Node) bool {
+			r, ok := x.(*ast.ReturnStmt)
+			if !ok || len(r.Results) != 1 {
+				return true
+			}
+			nRet++
+			call, ok := ast.Unparen(r.Results[0]).(*ast.CallExpr)
+			if ok {
+				if sel, ok := ast.Unparen(call.Fun).(*ast.SelectorExpr); ok && sel.Sel.Name == "String" {
+					if rid := rootIdent(sel.X); rid != nil && acc != nil && info.ObjectOf(rid) == acc {
+						return true
+					}
+				}
+			}
+			okRet = false
+			bad = nodeStr(c.Fset, r.Results[0])
+			return true
+		})
+		switch {
+		case acc == nil:
+			c.Violation(key, fd.Pos(), "the runes accepted by the matcher are not collected: the image of the token is %s, not the text the matcher has seen (a typographic alias inside a number or identifier, e.g. the en dash in 1e–5, is matched as its ASCII character but the image keeps the typographic one)", bad)
+		case !okRet || nRet == 0:
+			c.Violation(key, fd.Pos(), "the image returned is %s instead of the collected accepted runes", bad)
+		default:
+			c.OK(key, fd.Pos(), "the image is exactly the sequence of runes the matcher accepted")
+		}
+	}
+	if n == 0 {
+		c.Undecided("parser2.Tokenizer.readSkip", token.NoPos, "reader not found")
+	}
+}
